@@ -109,7 +109,8 @@ func cmdFaults(args []string) int {
 			return false
 		}
 		run.stats["fault."+label]++
-		if op.Fault.Store && (op.Kind == KAttest || op.Kind == KAttests || op.Kind == KPropose) {
+		// (when the ruler's answer is injected the rules, and with them the write, never run)
+		if op.Fault.Store && op.Fault.Ruler == nil && (op.Kind == KAttest || op.Kind == KAttests || op.Kind == KPropose) {
 			for i, o := range rec.Obs {
 				if o.SigLen > 0 {
 					monFail = append(monFail, fmt.Sprintf("a signature was released at position %d although the write of the protection records failed :: %s", i, describeStep(rec)))
